@@ -4,7 +4,7 @@ AlphasQ == {0, 420, 550}
 AlphasT == {0, 250, 420, 550, 600}
 RatesQ == {16000, 48000}
 RatesT == {8000, 16000, 48000, 96000}
-OrdersQ == {2, 3, 5, 12, 25, 40}
+OrdersQ == {2, 3, 4, 5, 8, 12, 18, 25, 33, 40}
 OrdersT == 2..40
 PostOrdersQ == {2, 3, 4, 9, 25, 40}
 LspOrdersQ == {2, 3, 4, 5, 8}
